@@ -268,6 +268,20 @@ func udpServerTables(rec *vr.Rec, rounds int) {
 		ctx, cancel := context.WithTimeout(context.Background(), 30*time.Millisecond)
 		_ = srv.Discover(ctx, "127.0.0.1:9", "/x", func(cc *udpclient.Conn, resp *pool.Message) {})
 		cancel()
+		// discoveries that fail while being sent: the context is over before the datagram is written / the address
+		// cannot be resolved; a failed discovery leaves nothing behind either
+		dead, cancelDead := context.WithCancel(context.Background())
+		cancelDead()
+		derr1 := srv.Discover(dead, "127.0.0.1:9", "/x", func(cc *udpclient.Conn, resp *pool.Message) {})
+		ctx3, cancel3 := context.WithTimeout(context.Background(), 30*time.Millisecond)
+		derr2 := srv.Discover(ctx3, "not-an-address:::1", "/x", func(cc *udpclient.Conn, resp *pool.Message) {})
+		cancel3()
+		if derr1 != nil {
+			rec.Count("udp_server_discoveries_failed_in_send", 1)
+		}
+		if derr2 != nil {
+			rec.Count("udp_server_discoveries_failed_in_resolve", 1)
+		}
 		for _, cc := range conns {
 			_ = cc.Close()
 		}
